@@ -5,6 +5,8 @@ void verif_factory_hook(void);
 #define BOARD_ESP_FACTORY_DEFAULTS verif_factory_hook();
 #ifndef MQTT_SUPPORT_ENABLED
 #define MQTT_SUPPORT_ENABLED
+/* observation of every recognised input state change (supla_esp_board_input_state_change in sdk/fwglue.c) */
+#define BOARD_INPUT_STATE_CHANGE_NOTIF
 #endif
 #define MQTT_HA_RELAY_SUPPORT
 #define MQTT_HA_ROLLERSHUTTER_SUPPORT
@@ -13,4 +15,6 @@ void verif_factory_hook(void);
 /* the firmware expects this macro to expand to a definition of pgm_read_byte_inlined() */
 #define PGM_READ_INLINED \
   static inline unsigned char pgm_read_byte_inlined(const void *addr) { return *(const unsigned char *)addr; }
+/* observation of every recognised input state change (supla_esp_board_input_state_change in sdk/fwglue.c) */
+#define BOARD_INPUT_STATE_CHANGE_NOTIF
 #endif
